@@ -17,8 +17,11 @@ BhBefore(ord, i) == Cardinality({j \in 1..(i - 1) : ord[j].beh = "blackhole"})
 \* an overall deadline T (ms) shorter than one race interval: only attempts started at once can still succeed, i.e. an
 \* accepting address with nothing but refusing addresses before it
 EarlyAccept(ord) == \E i \in 1..Len(ord) : ord[i].beh = "accept" /\ \A j \in 1..(i - 1) : ord[j].beh = "refuse"
+\* (e.expired: the deadline had passed before the first attempt; whether a lone accepting address is still reached
+\* is a race the property does not decide - a success needs an accepting address, that is all)
 G17_succeedsIffSomeAccepts(e, ord) ==
-  IF e.T = 0 THEN (e.res = "ok") <=> (AcceptKeys(ord) # {})
+  IF e.expired THEN (e.res = "ok" => AcceptKeys(ord) # {})
+  ELSE IF e.T = 0 THEN (e.res = "ok") <=> (AcceptKeys(ord) # {})
   ELSE (e.res = "ok") <=> EarlyAccept(ord)
 \* (a success for which no accepting listener saw the request - winner "-" - is a failure of this guard, not an evaluation error)
 G17_winnerAccepted(e, ord) == e.res = "ok" => <<e.winner[1], e.winner[2]>> \in AcceptKeys(ord)
@@ -26,7 +29,8 @@ G17_attemptOrder(e, ord) == IsPrefix([i \in 1..Len(e.spawns) |-> <<e.spawns[i][1
 G17_unresponsiveCostsOneInterval(e, ord) ==
   (e.res = "ok" /\ AcceptKeys(ord) # {}) => e.elapsed <= RaceMs * BhBefore(ord, FirstAccept(ord)) + SlackMs
 G17_honestFailure(e, ord) ==
-  e.res # "ok" => (e.res = "err" /\ ((ord # <<>> /\ e.T = 0) => e.kind \in {"Io:ConnectionRefused", "Io:TimedOut"}))
+  \* when no connection can have been established the error is one of the attempts' errors, with or without a deadline
+  e.res # "ok" => (e.res = "err" /\ ((ord # <<>> /\ (e.T = 0 \/ AcceptKeys(ord) = {})) => e.kind \in {"Io:ConnectionRefused", "Io:TimedOut"}))
 HGuards == {"G17_succeedsIffSomeAccepts", "G17_winnerAccepted", "G17_attemptOrder", "G17_unresponsiveCostsOneInterval", "G17_honestFailure"}
 HGuard(g, e, ord) ==
   CASE g = "G17_succeedsIffSomeAccepts" -> G17_succeedsIffSomeAccepts(e, ord) [] g = "G17_winnerAccepted" -> G17_winnerAccepted(e, ord)
